@@ -400,8 +400,15 @@ def declareTag (nst : Nat) (a : DeclareArgs) (m : Spec) : Option Tag :=
   | some t => some t
   | none => if (findProducts m nst a.self a.name none (allStacks nst)).isEmpty then some current else none
 
-/-- argument resolution of `Eups.declare` (l.2326-2525); `none`: one of the `EupsException`s raised there -/
-def resolveDeclare (nst : Nat) (a : DeclareArgs) (p : Proc) : Option Resolved :=
+/-- the stack a declaration goes to: the one given, else the one holding the directory, else the first
+writable one (l.2381-2404) -/
+def targetOf (nst : Nat) (a : DeclareArgs) (d : Dir) : Nat :=
+  match a.stack with
+  | some s => s
+  | none => if d.root < nst then d.root else 0
+
+/-- directory and table of `Eups.declare` (l.2326-2525); `none`: one of the `EupsException`s raised there -/
+def resolveDirTable (nst : Nat) (a : DeclareArgs) (p : Proc) : Option (Dir × Table) :=
   let m := p.mem
   -- `if tag and (not productDir or not tablefile)`: look the product up, native flavor first
   let info : Option Decl :=
@@ -426,12 +433,12 @@ def resolveDeclare (nst : Nat) (a : DeclareArgs) (p : Proc) : Option Resolved :=
   | none => none                                    -- "Please specify a productDir"
   | some d =>
     if !(p.dirExists d) then none else              -- "is not a directory"
-    -- the stack: the one given, else the one holding the directory, else the first writable one
-    let target : Nat := match a.stack with
-      | some s => s
-      | none => if d.root < nst then d.root else 0
     if table == .default && !(p.tableExists d a.name) then none else   -- "tablefile does not exist"
-    some ⟨d, table, target⟩
+    some (d, table)
+
+/-- argument resolution of `Eups.declare`: directory, table, stack -/
+def resolveDeclare (nst : Nat) (a : DeclareArgs) (p : Proc) : Option Resolved :=
+  (resolveDirTable nst a p).map fun dt => ⟨dt.1, dt.2, targetOf nst a dt.1⟩
 
 /-- "check external files" (l.2568-2588): the extra directory of the declaration exists and its content is not
 what the call lists — a file to add, a file with other content, a file that is not being replaced -/
